@@ -338,4 +338,38 @@ PROPS["C16"] = {
     "timeout": {"quick": 300, "thorough": 2400},
 }
 
+PROPS["C09"] = {
+    "modules": ["Hertz.Props.C09"],
+    "rule": "State level (rst): for each of 19 reset methods of RequestContext/Request/Response/RequestHeader/ResponseHeader/URI/Args/Cookie/Trailer "
+            "(incl. the serve-loop tail and the pool put), every single-step program over the whole reflected method alphabet plus 220 (quick) / 4000 "
+            "(thorough) random programs of 0-100 exported-method calls with type-driven arguments, body-retention limit in {default,0,16,4096}; the full "
+            "field-level state is dumped before and after the reset. End to end (probe): 11 dirty requests (GET, form POST, multipart, chunked+trailer, "
+            "HEAD, HTTP/1.0, 100-continue, 4 malformed) x 15 flag sets (abort, panic under recovery, error, hijack, streaming, no normalising, small "
+            "retention) x random handler programs over every exported method of the context and its request/response objects; then a fixed probe on "
+            "the same connection and on another connection of the same engine, compared with a new engine. Public pools (pool): Acquire/Release of "
+            "Request/Response/URI/Cookie and Args.Reset. Concurrency (probec): 8x12 (quick) / 12 runs of 16x60 (thorough) connections in parallel.",
+    "exhaustive_note": "every single-step program over the complete reflected alphabet of exported methods (all receiver objects) is run for every reset "
+                       "method, for the end-to-end probe and for each pooled type; all 11 x 15 request-variant/flag combinations with the empty program; the rest is sampled",
+    "level_text": "The reset bodies of all nine pooled types are translated from the Go source into Lean on every run (statement by statement; capacity "
+                  "tests become universally quantified Booleans). Proved for all states and all outcomes of the capacity tests: after Request.Reset/"
+                  "ResetWithoutConn, Response.Reset, URI.Reset, Cookie.Reset, Args.Reset, Trailer.Reset the observable state is that of a new object (also through any "
+                  "history of the sync.Pool model); after RequestContext.ResetWithoutConn/Reset it is that of a new object EXCEPT "
+                  "exactly two fields (reset_exact): exiled and hijackHandler (cleared by the serve loop itself: serve_recycle_fresh_partial) "
+                  "- for these the full statement is refuted on concrete witnesses (reset_fresh_fails_at, checked against "
+                  "the real code) and proved under the excluding hypotheses. every_field_accounted: each Go field is written by the reset closure or "
+                  "allow-listed, decided over the generated tables. The generated functions are run by the driver on states dumped from the real objects "
+                  "and must reproduce the real post-state field by field; end-to-end probes through the real server compare every exported getter.",
+    "level_note": "Trusted: Lean kernel; the go/ast translator gen/c09.go (its output is additionally compared with the real objects on every state-level "
+                  "case); harness/driver. Abstractions: slices are lists (nil vs empty and retained capacity are not modelled - stale capacity is "
+                  "covered by the differential runs only); interface/func/map/chan values are opaque tokens (0 = nil); closing of channels/streams and "
+                  "traceInfo.Reset are effects outside the state. sync.Pool is modelled as 'Get returns some Put object or a new one'; goroutine "
+                  "migration is sampled (probec), to be run under -race manually. Known finding: exiled-survives-reset.",
+    "assumptions": ["handlers do not call the configuration setters SetConn/SetBinder/SetValidator/SetClientIPFunc/SetFormValueFunc/SetTraceInfo/"
+                    "SetEnableTrace/Request.SetIsTLS/SetMaxKeepBodySize (these survive recycling by design) and do not lower the chain index (SetIndex)",
+                    "RequestHeader.GetBufValue (accessor of the scratch buffer) is not an observation",
+                    "panics are caught inside ServeHTTP (recovery middleware or PanicHandler); a panic that unwinds through Serve returns the context to the pool with its hijack handler still set",
+                    "sync.Pool returns an object previously Put or a new one"],
+    "timeout": {"quick": 200, "thorough": 1500},
+}
+
 NOT_CLAIMED = {}
